@@ -189,19 +189,28 @@ Definition hist_model (steps : list hstep) : list (Q * list Q) := map (fun s => 
 
 Definition closeb (a b : Q) : bool := close tol a b.
 
-(** finite differences: 2e-4 relative to |a| + |b|, 1e-6 absolute *)
-Definition fd_close (a b : Q) : bool :=
-  Qle_bool (Qabs (a - b)%Q) ((2 # 10000) * (Qabs a + Qabs b) + (1 # 1000000))%Q.
+(** finite differences: 2e-4 relative to |a| + |b|, 1e-6 absolute, plus [extra] (below) *)
+Definition fd_close (extra a b : Q) : bool :=
+  Qle_bool (Qabs (a - b)%Q) ((2 # 10000) * (Qabs a + Qabs b) + (1 # 1000000) + extra)%Q.
+
+(** what binary64 costs: the coded gradient is a difference of grad_mean and 1/2 grad_var sqrt(beta/var),
+    which may cancel (2e-5 of their magnitudes), and the central difference of sqrt(beta var) amplifies
+    the rounding error of the surrogate's variance by sqrt(beta/var) (1e-8 of it) *)
+Definition fd_extra (s : hstep) (gm gv : Q) : Q :=
+  ((2 # 100000) * (Qabs gm + Qabs (lcbsc_gradQ (near_q (h_sqrt s)) (h_beta s) (h_mean s) (h_var s) 0 gv 0))
+   + (1 # 100000000) * Qabs (near_q (h_sqrt s) (h_beta s / h_var s)))%Q.
 
 (** per coordinate: the gradient matches the central difference for at least one of the two step sizes
     (truncation error dominates the larger step where the surrogate's length scale is small, rounding
     error the smaller one) *)
-Fixpoint fd_match (g f1 f2 : list Q) : bool :=
-  match g, f1, f2 with
-  | [], [], [] => true
-  | a :: g', b :: f1', c :: f2' => (fd_close a b || fd_close a c) && fd_match g' f1' f2'
-  | _, _, _ => false
+Fixpoint fd_match_go (s : hstep) (gm gv g f1 f2 : list Q) : bool :=
+  match gm, gv, g, f1, f2 with
+  | [], [], [], [], [] => true
+  | m :: gm', v :: gv', a :: g', b :: f1', c :: f2' =>
+      (fd_close (fd_extra s m v) a b || fd_close (fd_extra s m v) a c) && fd_match_go s gm' gv' g' f1' f2'
+  | _, _, _, _, _ => false
   end.
+Definition fd_match (s : hstep) (g : list Q) : bool := fd_match_go s (h_gmean s) (h_gvar s) g (h_fd s) (h_fd2 s).
 
 Definition opt_all {X} (f : X -> bool) (o : option X) : bool := match o with None => true | Some x => f x end.
 
@@ -222,8 +231,8 @@ Definition step_ok (s : hstep) : bool :=
   negb (Qle_bool (h_beta s) 0%Q) && negb (Qle_bool (h_var s) 0%Q)
   && forallb (fun ar => Qle_bool 0%Q (snd ar) && close tol (snd ar * snd ar)%Q (fst ar)) (h_sqrt s)
   && opt_all (fun v => closeb v (h_fval s)) (h_val s)
-  && opt_all (fun g => list_eqb closeb g (h_fgrad s) && fd_match g (h_fd s) (h_fd2 s)) (h_grad s)
-  && fd_match (h_fgrad s) (h_fd s) (h_fd2 s).
+  && opt_all (fun g => list_eqb closeb g (h_fgrad s) && fd_match s g) (h_grad s)
+  && fd_match s (h_fgrad s).
 
 Definition hacq_ok (h : hist_case) (a : nat * list row) : bool :=
   Nat.eqb (length (snd a)) (fst a) && forallb (in_box (hs_bounds h)) (snd a).
